@@ -151,6 +151,10 @@ func (o c08Op) packet() stanza.Packet {
 		return stanza.SMRequest{}
 	case "sma":
 		return stanza.SMAnswer{H: o.H}
+	case "smrp":
+		return &stanza.SMRequest{}
+	case "smap":
+		return &stanza.SMAnswer{H: o.H}
 	}
 	return nil
 }
@@ -170,7 +174,27 @@ func (o c08Op) data() string {
 	return string(b)
 }
 
-func (o c08Op) nonza() bool { return o.K == "smr" || o.K == "sma" }
+// nonza: an acknowledgement request or answer of stream management, which is not a stanza and is
+// never held: the SMRequest/SMAnswer packets (by value or by pointer) and a raw string whose first
+// element is {urn:xmpp:sm:3}r or {urn:xmpp:sm:3}a.
+func (o c08Op) nonza() bool {
+	switch o.K {
+	case "smr", "sma", "smrp", "smap":
+		return true
+	case "raw":
+		d := xml.NewDecoder(strings.NewReader(o.rawString()))
+		for {
+			tok, err := d.Token()
+			if err != nil {
+				return false
+			}
+			if se, ok := tok.(xml.StartElement); ok {
+				return se.Name.Space == nsSM && (se.Name.Local == "r" || se.Name.Local == "a")
+			}
+		}
+	}
+	return false
+}
 func (o c08Op) iqGetSet() bool {
 	return o.Typ == "get" || o.Typ == "set"
 }
@@ -299,14 +323,35 @@ type c08Sender interface {
 
 func (in *c08In) rejected(i int) bool { o := in.Ops[i]; return o.K == "sendiq" && !o.iqGetSet() }
 
-// pushing: the ops whose payload a client with stream management holds in the queue
+// writeFails: for every op, whether it gets to a socket write and whether that write fails
+// (as seen by the caller: error, or short count under the logger), from the injected faults.
+func (in *c08In) writeFails() (attempted, failed []bool) {
+	attempted, failed = make([]bool, len(in.Ops)), make([]bool, len(in.Ops))
+	si := 0
+	for i, o := range in.Ops {
+		attempted[i] = in.Conn == 0 && !in.rejected(i)
+		if !attempted[i] {
+			continue
+		}
+		if f, ok := c08FaultAt(in.SockF, si); ok {
+			failed[i] = f.failsOn(len(o.data()), in.Log)
+		}
+		si++
+	}
+	return
+}
+
+// pushing: the ops whose payload a client with stream management (and a session) holds in the
+// queue afterwards: stanzas and raw strings, not acknowledgement requests/answers, whose write
+// succeeded (a refused packet leaves the queue again).
 func (in *c08In) pushing() []c08Op {
 	var r []c08Op
-	if in.Component || !in.SM || in.NoSess || in.Conn == 1 {
+	if in.Component || !in.SM || in.NoSess || in.Conn != 0 {
 		return nil
 	}
+	attempted, failed := in.writeFails()
 	for i, o := range in.Ops {
-		if !in.rejected(i) && !o.nonza() {
+		if attempted[i] && !failed[i] && !o.nonza() {
 			r = append(r, o)
 		}
 	}
@@ -466,7 +511,7 @@ func c08OpsSx(in *c08In) Sx {
 	for i, o := range in.Ops {
 		switch o.K {
 		case "raw":
-			ops[i] = L(Z(1), SBytes(o.want()))
+			ops[i] = L(Z(1), SBytes(o.want()), B(o.nonza()))
 		case "sendiq":
 			ops[i] = L(Z(2), SBytes(o.want()), c08IQTypeZ(o.Typ))
 		default:
@@ -509,12 +554,12 @@ func c08OracleSeq(in *c08In, obs Sx) (string, string) {
 	if len(obs.L) != 2 || len(obs.L[0].L) != len(in.Ops) {
 		return "unexpected observation shape: " + obs.String(), "shape"
 	}
-	si := 0 // socket call counter
+	att, fl := in.writeFails()
 	for i, o := range in.Ops {
 		st := obs.L[0].L[i]
 		res, sc := st.L[0].Z, st.L[1].L
 		want := o.want()
-		attempted := in.Conn == 0 && !in.rejected(i)
+		attempted := att[i]
 		if res == 9 {
 			return fmt.Sprintf("op %d (%s; stream management %v, session present %v, connection state %d): the call panicked instead of returning nil or an error", i, o.K, in.SM, !in.NoSess, in.Conn), c08PanicSig(in)
 		}
@@ -538,11 +583,7 @@ func c08OracleSeq(in *c08In, obs Sx) (string, string) {
 			}
 			return fmt.Sprintf("op %d (%s): the transport write is not %s: wrote %.120q, want %.120q", i, o.K, what, got, want), "write-bytes"
 		}
-		failed := false
-		if f, ok := c08FaultAt(in.SockF, si); ok {
-			failed = f.failsOn(len(o.data()), in.Log)
-		}
-		si++
+		failed := fl[i]
 		if failed && res != 1 {
 			return fmt.Sprintf("op %d (%s): the write failed (injected fault) but the call returned nil", i, o.K), "unreported-failure"
 		}
@@ -553,7 +594,7 @@ func c08OracleSeq(in *c08In, obs Sx) (string, string) {
 	q := obs.L[1].L
 	push := in.pushing()
 	if len(q) != len(push) {
-		return fmt.Sprintf("unacknowledged queue holds %d entries, want %d", len(q), len(push)), "queue"
+		return fmt.Sprintf("unacknowledged queue holds %d entries, want %d (the stanzas and raw strings whose write succeeded, no acknowledgement requests/answers)", len(q), len(push)), "queue"
 	}
 	for i := range q {
 		if string(bytesOf(q[i])) != push[i].want() {
@@ -1167,12 +1208,17 @@ func c08RunStress(in *c08In) Sx {
 		return c08Anomaly("lost", fmt.Sprintf("%d of %d stanzas arrived", len(seen), len(sent)))
 	}
 	if smq != nil {
-		// Push is not synchronised (C10's subject): only recorded, never a failure here
-		if len(smq.Uslice) < len(sent) {
-			hist("stress:queue-entries-lost-by-unsynchronised-push")
-		} else {
-			hist("stress:queue-complete")
+		// number and write are one step: the queue holds every stanza, in wire order
+		if len(smq.Uslice) != len(elems) {
+			return c08Anomaly("queue", fmt.Sprintf("%d stanzas on the wire, %d held in the unacknowledged queue", len(elems), len(smq.Uslice)))
 		}
+		for i, e := range elems {
+			id, _ := c08ElementID(e)
+			if op := sent[id].op; op.tok(smq.Uslice[i].Stz) != op.tok(e) {
+				return c08Anomaly("queue-order", fmt.Sprintf("queue entry %d is not element %d of the wire (id %s)", i, i, id))
+			}
+		}
+		hist("stress:queue-complete-in-wire-order")
 	}
 	in.Sched = sched
 	return L(LS(wire), B(true), B(true))
@@ -1332,9 +1378,26 @@ func c08OracleStress(in *c08In, obs Sx) (string, string) {
 
 // ---------------------------------------------------------------- Property interface
 
+// uniqueIQIds: SendIQ refuses an id that is still awaiting its response (C07's subject); the
+// requests of one case get distinct, non-empty ids.
+func (in *c08In) uniqueIQIds() {
+	seen := map[string]bool{}
+	for i := range in.Ops {
+		o := &in.Ops[i]
+		if o.K != "sendiq" {
+			continue
+		}
+		if o.ID == "" || o.ID == "noid" || seen[o.ID] {
+			o.ID = fmt.Sprintf("%s#%d", o.ID, i)
+		}
+		seen[o.ID] = true
+	}
+}
+
 func (c08) Decode(raw json.RawMessage) (interface{}, error) {
 	in := &c08In{}
 	err := json.Unmarshal(raw, in)
+	in.uniqueIQIds()
 	if in.Mode == "seq" {
 		for i := range in.SockF {
 			if in.SockF[i].N > 2 {
@@ -1497,11 +1560,11 @@ func c08GenOp(r *rand.Rand, i int, big bool) c08Op {
 	case c < 14:
 		o.K, o.Typ = "sendiq", []string{"get", "set", "result", "error", "get", "set"}[r.Intn(6)]
 	case c < 15:
-		o = c08Op{K: "smr"}
+		o = c08Op{K: []string{"smr", "smrp"}[r.Intn(2)]}
 	case c < 16:
-		o = c08Op{K: "sma", H: uint(r.Intn(1000))}
+		o = c08Op{K: []string{"sma", "smap"}[r.Intn(2)], H: uint(r.Intn(1000))}
 	default:
-		o = c08Op{K: "raw", Seed: o.Seed, Len: o.Len, Raw: []string{"", "<r xmlns='urn:xmpp:sm:3'/>", "<presence/>", "<message><body>", " ", "</stream:stream>", "100%", "%s %d %%"}[r.Intn(8)]}
+		o = c08Op{K: "raw", Seed: o.Seed, Len: o.Len, Raw: []string{"", "<r xmlns='urn:xmpp:sm:3'/>", "<presence/>", "<message><body>", " ", "</stream:stream>", "100%", "%s %d %%", "<a xmlns=\"urn:xmpp:sm:3\" h=\"2\"/>", " <r xmlns='urn:xmpp:sm:3'/><message/>", "<r xmlns='urn:x'/>"}[r.Intn(11)]}
 	}
 	return o
 }
@@ -1649,7 +1712,7 @@ func (c08) Gen(r *rand.Rand, tier string) []interface{} {
 		nops := 1 + r.Intn(6)
 		for j := 0; j < nops; j++ {
 			o := c08GenOp(r, j, false)
-			if o.K == "smr" || o.K == "sma" {
+			if o.nonza() && o.K != "raw" {
 				o = c08Op{K: "pres", ID: fmt.Sprint("p", j), Seed: o.Seed}
 			}
 			in.Ops = append(in.Ops, o)
@@ -1689,6 +1752,9 @@ func (c08) Gen(r *rand.Rand, tier string) []interface{} {
 		// a single sender (the wire must be its list) and many small senders
 		out = append(out, &c08In{Mode: "tcp", SM: true, Log: true, Senders: 1, PerSender: 40, MaxLen: 20000, Seed: r.Int63n(1 << 30)})
 		out = append(out, &c08In{Mode: "tcp", Senders: 16, PerSender: 50 + r.Intn(40), MaxLen: 2000, Seed: r.Int63n(1 << 30)})
+	}
+	for _, x := range out {
+		x.(*c08In).uniqueIQIds()
 	}
 	return out
 }
